@@ -8,7 +8,7 @@ V='/verif'
 # the run works from a snapshot of the binary, specs and known findings so that engine work can go on meanwhile
 VS=tempfile.mkdtemp(prefix='seedrun-verif-')
 shutil.copytree(V+'/specs',VS+'/specs'); shutil.copy(V+'/known_findings.json',VS); shutil.copy(V+'/properties.jsonl',VS); shutil.copy(V+'/MANIFEST.json',VS)
-os.makedirs(VS+'/bin'); shutil.copy(V+'/bin/vcgo',VS+'/bin/vcgo'); BIN=VS+'/bin/vcgo'
+os.makedirs(VS+'/bin'); shutil.copy(os.environ.get('SEEDRUN_BIN') or V+'/bin/vcgo',VS+'/bin/vcgo'); BIN=VS+'/bin/vcgo'
 PIN=os.environ.get('SEEDRUN_PIN') or subprocess.run(['git','-C','/repo','rev-parse','HEAD'],capture_output=True,text=True).stdout.strip()  # the whole run uses this commit of /repo
 claimed=[c['property_id'] for c in json.load(open(V+'/MANIFEST.json'))['checks']]
 rows=[l.rstrip('\n').split('\t') for l in open(V+'/tools/seeds.tsv') if l.strip()]
